@@ -7,7 +7,7 @@ from ..gen import J, JI
 from .c12 import params_of
 
 PROP = "C18"
-MONITORS = ("WF",)
+MONITORS = ("WF", "FORM")
 HOSTILE = ('special',)
 ANCHORS = [("utils/dataclass.py", "register_dataclass_type_with_jax_tree_util"),
            ("factor.py", "ConjugateFactor.to_dict"), ("factor.py", "ConjugateFactor.from_dict"),
